@@ -158,7 +158,7 @@ impl Property for C12 {
     fn budget(&self, tier: Tier) -> Budget {
         match tier {
             Tier::Quick => Budget { release: 900_000, dbg: 180_000, workers: 8 },
-            Tier::Thorough => Budget { release: 20_000_000, dbg: 3_000_000, workers: 16 },
+            Tier::Thorough => Budget { release: 10_000_000, dbg: 1_500_000, workers: 16 },
         }
     }
     fn assumptions(&self) -> Vec<String> {
